@@ -8,7 +8,7 @@ body, how many other locals or temporaries are live)": `compile_correct_any_cont
 over *every* frame state (any committed / reserved locals, any number of live temporaries up to the
 register limit), every result mode (`None`, `Any`, `Fixed r`) and every operator semantics.
 -/
-import KotoVerif.Lemmas.C01Sem5
+import KotoVerif.Lemmas.C01Chain
 import KotoVerif.Lemmas.C01Flatten
 
 namespace KotoVerif.C01
